@@ -42,7 +42,7 @@ check(
 check(
     "C13",
     "other",
-    "bounded symbolic verification of the exit-status chain: the real Errors.format_messages_default, util.count_stats and the status expressions extracted from main.main and dmypy_server on every run are executed on symbolic diagnostics (bounded strings as bit-vector character arrays); obligation: status 0 iff no error-severity diagnostic, 2 iff blockers. (K1) ignore / error-code exactness: the real Errors.add_error_info/is_ignored_error/is_error_code_enabled/generate_unused_ignore_errors and the gate State.generate_unused_ignore_notes driven through the Errors API with solver-chosen errors (line, code, sub-code, blocker), ignore comments (bare, coded, parent codes, several codes, unused-ignore), code states and --warn-unused-ignores; an error is shown iff blocker or enabled and unmatched, unused-ignore appears iff switched on and the comment (or a listed code) suppressed nothing.",
+    "bounded symbolic verification of the exit-status chain: the real Errors.format_messages_default, util.count_stats and the status expressions extracted from main.main and dmypy_server on every run are executed on symbolic diagnostics (bounded strings as bit-vector character arrays); obligation: status 0 iff no error-severity diagnostic, 2 iff blockers. (K1) ignore / error-code exactness: the real Errors.add_error_info/is_ignored_error/is_error_code_enabled/generate_unused_ignore_errors and the gate State.generate_unused_ignore_notes driven through the Errors API with solver-chosen errors (line, code, sub-code, blocker), ignore comments (bare, coded, parent codes, several codes, unused-ignore), code states and --warn-unused-ignores; an error is shown iff blocker or enabled and unmatched, unused-ignore appears iff switched on and the comment (or a listed code) suppressed nothing; (K1b) every (error code, ignore code) pair of the real code table; (K1c) the scope of an ignore comment at the top of a module in fastparse (first statement kind, decorators, comment position solver-chosen).",
     "trusted: z3; file names contain no ':'; --pretty source lines outside the bound; message text printable ASCII up to the stated length",
     "symbolic execution of real Python source with z3 over bounded bit-vector strings",
     "DESIGN.md 4/C13",
@@ -60,7 +60,7 @@ check(
 check(
     "C03",
     "other",
-    "bounded symbolic verification of the daemon's change detection (FileSystemWatcher._find_changed/_update on a stub file system, one step from an arbitrary recorded state) of the symbol-table snapshot differ (astdiff.compare_symbol_table_snapshots against an independent specification over symbolic snapshots), of snapshot_symbol_table/snapshot_definition on real symbol nodes with symbolic kind / module_public / externally visible flags (equal snapshots imply equal visible attributes) and of which triggers DependencyVisitor.add_dependency refuses to record (bounded symbolic strings: exactly those of builtins/typing/mypy_extensions/typing_extensions). Narrow: dependency generation as a whole, AST merge/strip and propagation are whole-program code and are not claimed.",
+    "bounded symbolic verification of the daemon's change detection (FileSystemWatcher._find_changed/_update on a stub file system, one step from an arbitrary recorded state) of the symbol-table snapshot differ (astdiff.compare_symbol_table_snapshots against an independent specification over symbolic snapshots), of snapshot_symbol_table/snapshot_definition on real symbol nodes with symbolic kind / module_public / externally visible flags (equal snapshots imply equal visible attributes) and of which triggers DependencyVisitor.add_dependency refuses to record (bounded symbolic strings: exactly those of builtins/typing/mypy_extensions/typing_extensions), and of mro.calculate_mro with the real TypeState (no cached subtype answer about a class survives a change of its bases). Narrow: dependency generation as a whole, AST merge/strip and propagation are whole-program code and are not claimed.",
     "trusted: z3; contract 'a content change changes size or real-valued mtime'; hash injective. Known finding: same-second same-size edit is missed by the daemon.",
     "symbolic execution of real Python source with z3 (decision-replay), replay through in-process dmypy Server vs fresh run",
     "DESIGN.md 4/C03",
@@ -107,7 +107,7 @@ check(
 check(
     "C09",
     "other",
-    "bounded symbolic verification of the two hinges of option/cache consistency: (K1) replay-path equivalence - the real Errors.file_messages/sort/remove_duplicates/render_messages/simplify_path/format_messages_default run under an Options proxy whose every attribute read is a fresh symbolic value per run, keyed options (OPTIONS_AFFECTING_CACHE, re-read from the source) equal in both runs; what a warm run replays (rendered under the old options, formatted under the new) must equal what a cold run prints; (K2) two symbolic option vectors differing on any keyed bool option have different snapshots; (K2b) the same for every keyed list/set/string option with symbolic elements - plugins compared as an ordered list, other collections as sets. Completeness of the key with respect to options read inside the semantic analyser/checker is NOT claimed (whole-program).",
+    "bounded symbolic verification of the two hinges of option/cache consistency: (K1) replay-path equivalence - the real Errors.file_messages/sort/remove_duplicates/render_messages/simplify_path/format_messages_default run under an Options proxy whose every attribute read is a fresh symbolic value per run, keyed options (OPTIONS_AFFECTING_CACHE, re-read from the source) equal in both runs; what a warm run replays (rendered under the old options, formatted under the new) must equal what a cold run prints; (K2) two symbolic option vectors differing on any keyed bool option have different snapshots; (K2b) the same for every keyed list/set/string option with symbolic elements - plugins compared as an ordered list, other collections as sets; (K1b) the same two-run comparison one step earlier, through Errors.report/add_error_info, with symbolic flags and error-code sets: an option read while diagnostics are stored must be in the key. Completeness of the key with respect to options read inside the semantic analyser/checker is NOT claimed (whole-program).",
     "trusted: z3; snapshot hash injective; same working directory in both runs; non-bool options at defaults in K1",
     "symbolic execution of real Python source with z3 (decision-replay) under a recording options proxy; replay = two real runs sharing a cache vs a cold run",
     "DESIGN.md 4/C09",
@@ -144,7 +144,7 @@ check(
 check(
     "C07",
     "other",
-    "bounded symbolic verification of the coordinator's scheduling kernel: the scheduling loop extracted from build.process_graph and the real BuildManager.submit/submit_to_workers/get_scc_batch/max_batch_size/wait_for_done/wait_for_done_workers run on a shell manager with stubbed transport; the solver chooses the SCC DAG (3/4 SCCs), the size hints, the number of workers (1..3) and, at every wait, which busy workers' responses arrive, and for every ready wave which SCCs find_stale_sccs reports fresh (mixed fresh/stale waves). For every schedule: an SCC is sent only after its dependencies reported interface-done, every SCC is sent exactly once, a worker gets a batch only after its implementation response, the loop terminates with everything done, bookkeeping stays in range. Worker side (W1): the real maybe_load_deps + State.reload_meta on solver-chosen DAGs, already-loaded sets and broadcast interface hashes - every dependency SCC is loaded once in order and carries the interface hash that is in the cache now. Equality of diagnostics with the sequential build is not claimed (needs real workers).",
+    "bounded symbolic verification of the coordinator's scheduling kernel: the scheduling loop extracted from build.process_graph and the real BuildManager.submit/submit_to_workers/get_scc_batch/max_batch_size/wait_for_done/wait_for_done_workers run on a shell manager with stubbed transport; the solver chooses the SCC DAG (3/4 SCCs), the size hints, the number of workers (1..3) and, at every wait, which busy workers' responses arrive, and for every ready wave which SCCs find_stale_sccs reports fresh (mixed fresh/stale waves). For every schedule: an SCC is sent only after its dependencies reported interface-done, every SCC is sent exactly once, a worker gets a batch only after its implementation response, the loop terminates with everything done, bookkeeping stays in range. Worker side (W1): the real maybe_load_deps + State.reload_meta on solver-chosen DAGs, already-loaded sets and broadcast interface hashes - every dependency SCC is loaded once in order and carries the interface hash that is in the cache now; (W2) process_stale_scc_interface/_implementation with a recording store - every written record is committed before the next module is written and before the function returns. Equality of diagnostics with the sequential build is not claimed (needs real workers).",
     "trusted: z3; stubs for send/ready_to_read/receive/response decoding; find_stale_sccs replaced by a solver-chosen split; workers answer each batch with one interface and one implementation response",
     "symbolic execution of real Python source with z3 (decision-replay) over all completion orders within the bound, partitioned over processes",
     "DESIGN.md 4/C07",
@@ -162,7 +162,7 @@ check(
 check(
     "C06",
     "other",
-    "ownership bounded model checking of the final mypyc IR: for every function of the mypyc test-data programs that build with the IR fixture (quick: 13 files, ~1100 functions; thorough: all irbuild/run/lowering/opt files) and of a generated corpus of ownership-relevant program shapes (displays, one-branch definitions, loops, try/finally, tuples), the FuncIR produced by the real compile_scc_to_ir pipeline is encoded in passive form over its CFG with loops peeled twice (per value: owned-reference count and error flag, ITE-merged; IS_ERROR branches tied to error flags; all other branch outcomes and op error flags free) and z3 discharges, per return and per decrement, that every value is released exactly once on every path incl. every exceptional exit and never over-released. Static half only. (K-glue) the C constructor (tp_new) emitted by the real emitclass.generate_new_for_class, compiled to LLVM IR with Py_DECREF redirected to a recorded external call: the new object is released exactly once on a failing __init__, never when returned; __init__'s result exactly once.",
+    "ownership bounded model checking of the final mypyc IR: for every function of the mypyc test-data programs that build with the IR fixture (quick: 13 files, ~1100 functions; thorough: all irbuild/run/lowering/opt files) and of a generated corpus of ownership-relevant program shapes (displays, one-branch definitions, loops, try/finally, tuples), the FuncIR produced by the real compile_scc_to_ir pipeline is encoded in passive form over its CFG with loops peeled twice (per value: owned-reference count and error flag, ITE-merged; IS_ERROR branches tied to error flags; all other branch outcomes and op error flags free) and z3 discharges, per return and per decrement, that every value is released exactly once on every path incl. every exceptional exit and never over-released. Static half only. (K-glue) the C constructor (tp_new) emitted by the real emitclass.generate_new_for_class, compiled to LLVM IR with Py_DECREF redirected to a recorded external call: the new object is released exactly once on a failing __init__, never when returned; __init__'s result exactly once. In __init__ functions a per-attribute 'may already hold a value' state makes every SetAttr marked as initialiser (no release of the old value) an obligation.",
     "trusted: z3; op ownership metadata (stolen/is_borrowed/error_kind/is_xdec) and its faithful emission as C; stated modelling rules (error value transfers nothing, unborrow hands over the aggregate, slot release before set_mem, out-parameter registers, dropped branch targets); loops peeled twice; dynamic leak observation, use-after-release of borrowed values and always-defined attributes outside",
     "bounded model checking of compiler IR with z3 (passive form, all paths and error flags)",
     "DESIGN.md 4/C06",
